@@ -11,7 +11,7 @@ int cmd_selfcheck(uint64_t n, uint64_t seed)
                 Rng r(seed + i, "selfcheck");
                 Json spec = Json::obj();
                 int fault = r.chance(1, 2) ? 0 : (int) (1 + r.below(GF_NKINDS - 1));
-                spec.set("s", r.u64() >> 8).set("n", r.logsize(20000)).set("fault", fault).set("dict", 0);
+                spec.set("s", r.u64() >> 8).set("n", r.logsize(20000)).set("fault", fault).set("dict", 0).set("ld", (int) (r.chance(1, 2) ? r.below(4) : 0));
                 DefGenOut g = gen_deflate_stream(spec);
                 std::vector<uint8_t> out;
                 RefInflate ri;
